@@ -22,7 +22,7 @@ LAYOUTS = {
                             "logs/Debian11/aarch64_ARM64/lastlog", None),
     "linux_x86_acct_v3": (64, 24, 4, None, 0, [("ac_comm", 48, 16)], "pacct", "logs/CentOS7/pacct", None),
     "netbsd_x8632_acct": (56, 24, 8, None, 0, [("ac_comm", 0, 16)], "acct", "logs/NetBSD9.3/x86_32/acct", None),
-    "netbsd_x8632_utmpx": (516, 464, 8, 472, 4, [("ut_user", 0, 32), ("ut_line", 36, 32), ("ut_host", 68, 256)], "utmpx",
+    "netbsd_x8632_utmpx": (516, 464, 8, 472, 4, [("ut_name", 0, 32), ("ut_line", 36, 32), ("ut_host", 68, 256)], "utmpx",
                            "logs/NetBSD9.3/x86_32/utmpx", 326),
     "netbsd_x8664_utmpx": (520, 464, 8, 472, 4, [("ut_user", 0, 32), ("ut_line", 36, 32), ("ut_host", 68, 256)], "utmpx",
                            "logs/NetBSD9.3/x86_64/utmpx", 326),
